@@ -959,7 +959,7 @@ const lifeFamilies = 14
 // start, accept-stop-run ...); 6-13 put them in one phase (start racing stop, first use racing
 // start, stop racing submissions, immediate stop after start).  Decorations: Stop twice, Run twice
 // (where Run is guarded by a once), the owner waiting for termination from the very beginning
-// (WaitStop of MultiLine / RunnerQ), getters.
+// (WaitStop of MultiLine / RunnerQ), getters, Stop called by the callee of one of the calls.
 func runLife(w *tr.W, rng *rand.Rand, kind string, nl, qopt, family int) {
 	wd := newWorld(w, fmt.Sprintf("life:%d", family), kind, nl, qopt, true, rng.Intn(3) == 0)
 	wd.x = qx.New(0)
@@ -1054,6 +1054,9 @@ func runLife(w *tr.W, rng *rand.Rand, kind string, nl, qopt, family int) {
 	if qopt >= 0 && rng.Intn(2) == 0 {
 		i := rng.Intn(len(phases))
 		phases[i] = cat(phases[i], []func(){wd.cfg})
+	}
+	if rng.Intn(4) == 0 { // an actor shutting its own executor down: the callee of this call calls Stop
+		wd.stopFrom = 1 + rng.Intn(3)
 	}
 	for _, ph := range phases {
 		release(ph)
